@@ -1739,6 +1739,14 @@ def C17(ctx):
                 continue
             cap = float(out.split(" ")[1])
             caps.append((repeats, cap))
+            # the same call against the DOUBLE-PRECISION model (Model/CapacityF.lean): bit for bit, every iteration
+            level = rng.choice([-10, -10, -6, -3, -12])
+            miter = rng.choice([500, 500, 40, 7])
+            np.random.seed(seed)
+            tolf = Fraction(float(10 ** level))
+            linef = "capf %s %d/%d %d %s %d" % (g.token(), tolf.numerator, tolf.denominator, miter,
+                                               ";".join(",".join("%d/%d" % (f.numerator, f.denominator) for f in v) for v in vecs), seed)
+            ctx.corr(linef, {"level": level})
             np.random.seed(seed)
             st, plain = proto.guarded(lambda: float(GZ.approximate_capacity(rows, repeats=repeats)), 60)
             if st != "ok" or plain != cap:
